@@ -122,6 +122,9 @@ func c08Deviations() []reqDev {
 	// signing times
 	add("time-nanoseconds", "time", "", func(r *reqSpec) { r.signingTime = r.signingTime.Add(999999999 * time.Nanosecond) })
 	add("time-zone+05:30", "time", "", func(r *reqSpec) { r.signingTime = r.signingTime.In(time.FixedZone("IST", 5*3600+1800)) })
+	// zones whose offset from UTC is not a whole number of minutes (historical local mean times; legal time.Time values): the instant asked for is the instant signed
+	add("time-zone+00:00:59", "time", "", func(r *reqSpec) { r.signingTime = r.signingTime.In(time.FixedZone("odd", 59)) })
+	add("time-zone-00:25:21(Dublin mean time)", "time", "", func(r *reqSpec) { r.signingTime = r.signingTime.In(time.FixedZone("DMT", -(25*60 + 21))) })
 	add("time-zone-08:00", "time", "", func(r *reqSpec) { r.signingTime = r.signingTime.In(time.FixedZone("PST", -8*3600)) })
 	add("time-pre-1970", "time", "", func(r *reqSpec) { r.signingTime = time.Date(1965, 3, 4, 5, 6, 7, 800, time.UTC) })
 	add("time-year-9999", "time", "", func(r *reqSpec) { r.signingTime = time.Date(9999, 12, 31, 23, 59, 58, 0, time.UTC) })
